@@ -70,6 +70,9 @@ enum Step {
         #[serde(default)]
         rewrite: u8,
     },
+    /// log compaction behind a snapshot of the committed prefix (truncate_log with one trailing
+    /// entry kept): the in-memory log loses its head, the WAL keeps every entry
+    Compact { back: u8 },
 }
 
 #[derive(Clone, Debug, Serialize, Deserialize)]
@@ -103,6 +106,7 @@ fn step_strategy() -> impl Strategy<Value = Step> {
         1 => Just(Step::ProposeCodebook),
         3 => Just(Step::LeadAndPropose),
         2 => (0u8..3, -2i8..3, prop_oneof![3 => Just(0u8), 2 => 1u8..4]).prop_map(|(dterm, extra, rewrite)| Step::InstallSnapshot { dterm, extra, rewrite }),
+        2 => (0u8..3).prop_map(|back| Step::Compact { back }),
     ]
 }
 
@@ -146,6 +150,9 @@ struct Driver {
     torn_tail_pending: bool,
     /// the step being executed carries entries that conflict with the node's log from this index on
     step_truncates_from: Option<u64>,
+    /// the live node's whole log as last seen (compaction drains the head of the in-memory log;
+    /// the drained entries are committed and stay what they were)
+    seen: Vec<(LogEntry, Ent)>,
 }
 
 fn peers() -> Vec<String> {
@@ -159,6 +166,8 @@ fn config() -> RaftConfig {
     c.enable_pre_vote = false;
     // fast path and geometric tie-break do not touch persistence
     c.enable_geometric_tiebreak = false;
+    // compaction (Step::Compact) keeps one entry behind the snapshot point
+    c.snapshot_trailing_logs = 1;
     c
 }
 
@@ -220,7 +229,23 @@ impl Driver {
             torn_tail_then_append: false,
             torn_tail_pending: false,
             step_truncates_from: None,
+            seen: Vec::new(),
         })
+    }
+
+    /// State of the LIVE node with its log completed by the head that compaction drained from
+    /// memory (position i holds index i + 1 again).
+    fn live_state(&mut self) -> (u64, Option<String>, Vec<(LogEntry, Ent)>) {
+        let (t, v, l) = read_state(&self.node, &self.scratch);
+        let base = match l.first() {
+            Some(e) => (e.0.index as usize).saturating_sub(1),
+            // an empty in-memory log: nothing drained unless compaction ran (it never empties the log)
+            None => 0,
+        };
+        let mut full: Vec<(LogEntry, Ent)> = self.seen.iter().take(base).cloned().collect();
+        full.extend(l);
+        self.seen = full.clone();
+        (t, v, full)
     }
 
     fn wal_len(&self) -> usize {
@@ -239,7 +264,7 @@ impl Driver {
 
     /// Execute one step on the live node; returns what the node said.
     fn exec(&mut self, step: &Step, ctx: &mut CaseCtx) -> Outcome {
-        let (term, _vf, log) = read_state(&self.node, &self.scratch);
+        let (term, _vf, log) = self.live_state();
         let last_idx = log.len() as u64;
         let last_term = log.last().map(|e| e.1.term).unwrap_or(0);
         self.step_truncates_from = None;
@@ -398,6 +423,24 @@ impl Driver {
                     Err(_) => Outcome::Election,
                 }
             },
+            Step::Compact { back } => {
+                let commit = self.node.commit_index().min(last_idx);
+                if commit < 2 {
+                    ctx.label("step:compact skipped (fewer than 2 committed entries)");
+                    return Outcome::Nothing;
+                }
+                // snapshot point: the commit index or a little before it
+                let idx = commit.saturating_sub(u64::from(*back)).max(2);
+                let meta = SnapshotMetadata::new(idx, log[idx as usize - 1].1.term, [0u8; 32], peers(), 0);
+                let before = self.node.log_length();
+                let _ = self.node.truncate_log(&meta);
+                if self.node.log_length() < before {
+                    ctx.label("step:compact drained the head of the in-memory log");
+                } else {
+                    ctx.label("step:compact (nothing to drain)");
+                }
+                Outcome::Nothing
+            },
             Step::InstallSnapshot { dterm, extra, rewrite } => {
                 let mut t = (term + *dterm as u64).max(last_term).max(1);
                 // extra > 0: the node's log plus new entries; extra <= 0: a snapshot of the committed
@@ -468,7 +511,7 @@ impl Driver {
 
     /// Record the obligations created by a completed step.
     fn record(&mut self, out: &Outcome, ctx: &mut CaseCtx) -> Result<(), Fail> {
-        let (term, _vf, log) = read_state(&self.node, &self.scratch);
+        let (term, _vf, log) = self.live_state();
         match out {
             Outcome::Vote(r, cand) => {
                 self.ob.t_max = self.ob.t_max.max(r.term);
@@ -654,7 +697,7 @@ fn run_case(case: &Case, ctx: &mut CaseCtx, all_cuts: bool) -> Result<(), Fail> 
         bounds.retain(|b| *b > before && *b <= after);
         let cuts = cut_points(before, after, all_cuts, 3, &bounds);
         let live = {
-            let (t, v, l) = read_state(&d.node, &d.scratch);
+            let (t, v, l) = d.live_state();
             (t, v, l.into_iter().map(|p| p.1).collect::<Vec<Ent>>())
         };
         // every other cut position: restart-only check on a scratch copy
